@@ -610,6 +610,18 @@ class Interp:
         if n.get("trait", "").startswith("core::cmp::PartialEq") and name in ("eq", "ne") and len(args) == 2:
             return self.binop("==" if name == "eq" else "!=", args[0], args[1], n)
         f = self.inline(n.get("resolved") or "") or self.inline(n.get("callee") or "")
+        if f is not None and not (f.get("in_trait") and not f.get("body")):
+            if not f.get("in_trait"):
+                return self.call_fn(f, args)
+        # unresolved call of a local trait's method on a generic: dispatch on the abstract receiver's type
+        tr = n.get("trait")
+        if tr and args:
+            recv = deref(args[0])
+            adt = getattr(recv, "adt", None)
+            if adt is not None:
+                g = self.user_impl(adt, tr, name)
+                if g is not None:
+                    return self.call_fn(g, args)
         if f is not None:
-            return self.call_fn(f, args)
+            return self.call_fn(f, args)     # trait method with a default body
         raise Unsupported("call to %s" % callee)
